@@ -23,17 +23,25 @@
      C01_single_segment end to end, string layer included, for every single-segment request on controller-scope
                         tags: name, name[i], name[i,j], name[i,j,k], ....bit, ...{n}; BOOL arrays name[i]{n}
                         (Proofs/ReadResolve1.v proves [request_ok] for them), any number of them in one call.
-     C01_guarded_from_resolution : the guarded statement follows from [resolution_sound] — exactly the
-                        part that is NOT proved in general: that the remaining request shapes which exist in
-                        the project (structure-member paths tag.member[..]..., program-scoped tags) are parsed
-                        by _parse_tag_request / tag_request_path into a path the target resolves to the same
-                        place.  That layer is exercised by the correspondence on every generated request.
+     C01_paths          end to end, string layer included, for every request shape
+                        [Program:P.]tag[i..].member[j..]. ... [.bit][{n}] (Proofs/ReadResolve2.v proves [request_ok]
+                        for them): member paths at any depth, BOOL / BOOL-array members, arrays of structures,
+                        program-scoped tags — given as structured requests (a visible tag, template member names
+                        spelled as the controller spells them, decimal fields) whose text is [item_text].
+     C01_guarded_from_resolution : the guarded statement follows from [resolution_sound].  What separates
+                        C01_paths from [resolution_sound]: (a) C01_paths_are_requests proves parse_request (item_text x)
+                        = Some (item_ast x), exists_in and the guard for every structured request, but the converse
+                        is not proved (an arbitrary string s with parse_request s = Some r is not shown to be the
+                        [item_text] of a structured request: Expect.parse_request is not inverted); (b) [resolution_sound] as stated is too strong without more guards: names that
+                        are not ASCII / longer than 255 bytes / spelled in another case, decimal fields longer than
+                        4300 digits, `x[i]` on a scalar DWORD ([dword_arrays]) make the client fail where the
+                        reference has a value.
      C01_components     the component lemmas, each universally quantified. *)
 From Coq Require Import String.
 From PV Require Import Base.Bytes Base.Res Base.PyStr Spec.Project Spec.Expect Spec.TargetIface Spec.TargetCore Spec.TargetLogix.
 From PV Require Import Model.LogixRead.
 From PV Require Import Proofs.ReadBits Proofs.ReadDecode Proofs.ReadTarget Proofs.ReadValue Proofs.ReadFrag Proofs.ReadMulti
-  Proofs.ReadPlan Proofs.ReadCorrect Proofs.ReadResolve Proofs.ReadResolve1.
+  Proofs.ReadPlan Proofs.ReadCorrect Proofs.ReadResolve Proofs.ReadResolve1 Proofs.ReadResolve2.
 Open Scope list_scope.
 Open Scope Z_scope.
 
@@ -174,6 +182,48 @@ Proof.
   exact (sreq_request_ok p mem cfg fuel x Hwf Hwm Hlay Hup Hx).
 Qed.
 Print Assumptions C01_single_segment_holds.
+
+(* ---------------------------------------------------------------- end to end for every request shape:
+   [Program:P.]tag[i..].member[j..]. ... [.bit][{n}] — structure-member paths at any depth (BOOL members, BOOL-array
+   members, arrays of structures), program-scoped tags, and the single-segment requests above.
+   [item_ok] (Proofs/ReadResolve2.v): the names are those of a visible tag and of template members, spelled as the
+   controller spells them; indices / bit / count are decimal fields; the request exists (ref_read <> None), can be
+   built (read_path succeeds) and fits the connection.  [dword_arrays]: BOOL arrays are arrays. *)
+Definition C01_paths : Prop :=
+  forall p mem pol basic cfg fuel st ms (xs : list ritem),
+    wf_project p = true -> wf_mem p mem = true -> layout_ok p = true -> upload_ok p = true -> dword_arrays p = true ->
+    0 < po_bool_true pol < 256 ->
+    quiet (mkLState p mem pol basic) ms st -> (c_micro800 cfg = false -> ms = true) -> c_conn cfg < 65536 ->
+    Forall (item_ok p mem cfg fuel) xs ->
+    C01_conclusion p mem cfg fuel st (map item_text xs) (map item_ast xs).
+
+Theorem C01_paths_hold : C01_paths.
+Proof.
+  intros p mem pol basic cfg fuel st ms xs Hwf Hwm Hlay Hup Hda Hbt Hq Hms Hconn HF.
+  apply (C01_partial_holds p mem pol basic cfg fuel st ms (map item_text xs) (map item_ast xs) Hlay Hbt (wf_mem_bytes_ok p mem Hwm) Hq Hms Hconn).
+  induction HF as [|x xs Hx _ IH]; [constructor|]. cbn [map]. constructor; [|exact IH].
+  exact (item_request_ok p mem cfg fuel x Hwf Hwm Hlay Hup Hda Hx).
+Qed.
+Print Assumptions C01_paths_hold.
+
+(* the structured requests are requests in the sense of C01_full: Expect.parse_request reads [item_text x] as
+   [item_ast x], the request exists and travels, and it is outside the guard — so C01_paths is C01_guarded_statement
+   restricted to the strings that are the text of a structured request *)
+Theorem C01_paths_are_requests : forall p mem cfg fuel (x : ritem),
+  wf_project p = true -> wf_mem p mem = true -> layout_ok p = true -> upload_ok p = true -> dword_arrays p = true ->
+  item_ok p mem cfg fuel x -> item_wf x ->
+  exists_in p mem cfg fuel (item_text x) (item_ast x) /\ C01_guard p (item_text x) = false.
+Proof.
+  intros p mem cfg fuel x Hwf Hwm Hlay Hup Hda Hok Hiwf.
+  destruct (item_request_ok p mem cfg fuel x Hwf Hwm Hlay Hup Hda Hok) as (q & path & Hres & Hfits & _ & Href).
+  destruct Hres as (pl & pb & l & _ & Hparse & Hrp & _).
+  destruct Hfits as (F1 & F2 & F3 & F4 & F5).
+  split.
+  - split; [exact (item_parse_request p mem cfg fuel x Hok Hiwf)|]. split; [exact Href|].
+    exists q, path. split; [exact Hparse|]. split; [exact Hrp|]. repeat split; assumption.
+  - unfold C01_guard. rewrite Hparse. apply Z.leb_gt. exact F4.
+Qed.
+Print Assumptions C01_paths_are_requests.
 
 (* ---------------------------------------------------------------- the full statement is refuted by the UINT element count.
    An array of 65536 SINTs exists; `g{65536}` asks for all of it; the element count of Read Tag is a UINT:
@@ -389,4 +439,92 @@ Example C01_single_nonvacuous :
 Proof.
   split; [vm_compute; reflexivity|]. split; [vm_compute; reflexivity|]. split; [vm_compute; reflexivity|].
   unfold ex_sreqs. constructor; [sreq_fact|]. constructor; [sreq_fact|]. constructor; [sreq_fact|]. constructor; [sreq_fact|constructor].
+Qed.
+
+(* ---------------------------------------------------------------- non-vacuity of C01_paths: a UDT with a hidden host member,
+   BOOL members, an INT and a DINT[2]; an array of two of them, a program-scoped DINT; one call with five
+   requests: members of array elements, a BOOL member, an integer bit of a program tag, a whole structure *)
+Definition px_udt : template :=
+  mkTemplate (zs "udtMix") (Some (zs "n1")) 672 17185 12 0
+    [ mkMember (zs "ZZZZZZZZZZudtMix0") (BAtom C_SINT) 0 0 0 true;
+      mkMember (zs "bRun") (BAtom C_BOOL) 0 0 0 false;
+      mkMember (zs "bFault") (BAtom C_BOOL) 0 0 5 false;
+      mkMember (zs "Count") (BAtom C_INT) 0 2 0 false;
+      mkMember (zs "Vals") (BAtom C_DINT) 2 4 0 false ].
+Definition px_prog : tagdef := mkTag (zs "Program:Main") 3 ScCtrl (BOpaque 104) [] 0 false 0 0 0 67108864.
+Definition px_mix : tagdef := mkTag (zs "mix") 9 ScCtrl (BStruct 672) [2] 0 false 0 0 0 67108864.
+Definition px_v : tagdef := mkTag (zs "v") 11 (ScProg (zs "Main")) (BAtom C_DINT) [] 0 false 0 0 0 67108864.
+Definition px_proj : project := mkProject [px_udt] [px_prog; px_mix; px_v].
+Definition px_mem : Project.mem :=
+  [(9, [32; 0; 7; 0; 1; 0; 0; 0; 2; 0; 0; 0;   1; 0; 254; 255; 3; 0; 0; 0; 4; 0; 0; 128]); (11, [8; 0; 0; 0])].
+Definition px_cfg : ccfg := mkCfg 500 false true.
+Definition px_items : list ritem :=
+  [ inr (mkGreq px_mix (zs "mix", [zs "1"], [1]) [(zs "Count", [], [])] None None);
+    inr (mkGreq px_mix (zs "mix", [zs "0"], [0]) [(zs "Vals", [zs "1"], [1])] None None);
+    inr (mkGreq px_mix (zs "mix", [zs "0"], [0]) [(zs "bFault", [], [])] None None);
+    inr (mkGreq px_v (zs "v", [], []) [] (Some (zs "3", 3)) None);
+    inl (mkSreq px_mix [zs "1"] [1] None None) ].
+Ltac ppok := unfold ppart_ok; split; [vm_compute; reflexivity|]; split;
+  [repeat constructor; vm_compute; congruence|repeat constructor; cbn; lia].
+Ltac greq_fact :=
+  unfold greq_ok; cbn [gq_g gq_x1 gq_more gq_bit gq_cnt];
+  split; [vm_compute; tauto|]; split; [reflexivity|];
+  split; [repeat (constructor; [ppok|]); constructor|];
+  split; [vm_compute; reflexivity|]; split; [vm_compute; reflexivity|];
+  split; [first [exact I | repeat split; vm_compute; congruence]|];
+  split; [first [exact I | repeat split; vm_compute; congruence]|];
+  split; [repeat constructor; cbn; lia|];
+  split; [first [left; discriminate | right; left; discriminate]|];
+  split; [intros pl0 pl1 H1 H2; vm_compute in H1; injection H1 as <-; vm_compute in H2; injection H2 as <-;
+          first [exact I | vm_compute; split; [reflexivity|exact I]]|];
+  split; [vm_compute; discriminate|];
+  split; [intros q H; vm_compute in H; injection H as <-; eexists; vm_compute; reflexivity|];
+  intros q path H1 H2; vm_compute in H1; injection H1 as <-; vm_compute in H2; injection H2 as <-;
+  unfold fits; repeat split; fact.
+Ltac sreq_fact2 :=
+  unfold sreq_ok; cbn [sr_g sr_ids sr_idv sr_bit sr_cnt];
+  split; [vm_compute; tauto|]; split; [reflexivity|]; split; [vm_compute; reflexivity|];
+  split; [repeat constructor; vm_compute; congruence|];
+  split; [first [exact I | repeat split; vm_compute; congruence]|];
+  split; [first [exact I | repeat split; vm_compute; congruence]|];
+  split; [unfold sreq_shape; cbn [sr_g sr_ids sr_idv sr_bit sr_cnt g_ty px_mix g_dims]; repeat constructor; lia|];
+  split; [vm_compute; discriminate|];
+  intros q path H1 H2; vm_compute in H1; injection H1 as <-; vm_compute in H2; injection H2 as <-;
+  unfold fits; repeat split; fact.
+
+
+Example C01_paths_nonvacuous :
+  wf_project px_proj = true /\ wf_mem px_proj px_mem = true /\ layout_ok px_proj = true /\ upload_ok px_proj = true
+  /\ dword_arrays px_proj = true
+  /\ map item_text px_items = [zs "mix[1].Count"; zs "mix[0].Vals[1]"; zs "mix[0].bFault"; zs "Program:Main.v.3"; zs "mix[1]"]
+  /\ Forall (item_ok px_proj px_mem px_cfg 100) px_items
+  /\ (let st := set_app (mkLState px_proj px_mem default_policy init_basic) (init_tstate init_lstate) in
+      exists st' sent tags, run_read 100 px_cfg (client_tags px_proj) st (map item_text px_items) = (st', sent, Done tags)
+        /\ Forall2 (tag_correct px_proj px_mem) (map item_ast px_items) tags
+        /\ firstn 4 (map tg_value tags) = [Some (RInt (-2)); Some (RInt 2); Some (RBool true); Some (RBool true)]).
+Proof.
+  assert (Hit : Forall (item_ok px_proj px_mem px_cfg 100) px_items).
+  { unfold px_items. do 4 (constructor; [cbn [item_ok]; greq_fact|]). constructor; [cbn [item_ok]; sreq_fact2|constructor]. }
+  assert (H1 : wf_project px_proj = true) by (vm_compute; reflexivity).
+  assert (H2 : wf_mem px_proj px_mem = true) by (vm_compute; reflexivity).
+  assert (H3 : layout_ok px_proj = true) by (vm_compute; reflexivity).
+  assert (H4 : upload_ok px_proj = true) by (vm_compute; reflexivity).
+  assert (H5 : dword_arrays px_proj = true) by (vm_compute; reflexivity).
+  split; [exact H1|]. split; [exact H2|]. split; [exact H3|]. split; [exact H4|]. split; [exact H5|].
+  split; [vm_compute; reflexivity|]. split; [exact Hit|]. cbv zeta.
+  assert (H6 : 0 < po_bool_true default_policy < 256) by (vm_compute; split; reflexivity).
+  assert (H7 : quiet (mkLState px_proj px_mem default_policy init_basic) true
+                 (set_app (mkLState px_proj px_mem default_policy init_basic) (init_tstate init_lstate)))
+    by (repeat split; reflexivity).
+  assert (H8 : c_micro800 px_cfg = false -> true = true) by reflexivity.
+  assert (H9 : c_conn px_cfg < 65536) by reflexivity.
+  destruct (C01_paths_hold px_proj px_mem default_policy init_basic px_cfg 100%nat
+              (set_app (mkLState px_proj px_mem default_policy init_basic) (init_tstate init_lstate)) true px_items
+              H1 H2 H3 H4 H5 H6 H7 H8 H9 Hit)
+    as (st' & sent & tags & Hrun & Htags).
+  exists st', sent, tags. split; [exact Hrun|]. split; [exact Htags|].
+  assert (Hc : snd (run_read 100 px_cfg (client_tags px_proj)
+                      (set_app (mkLState px_proj px_mem default_policy init_basic) (init_tstate init_lstate)) (map item_text px_items))
+               = Done tags) by (rewrite Hrun; reflexivity).
+  vm_compute in Hc. injection Hc as <-. reflexivity.
 Qed.
